@@ -670,6 +670,79 @@ def run_negotiation(ctx, n):
     hyp_search(ctx, negotiation_cases, fn, n, name='C20-negotiation')
 
 
+# ------------------------------------------------------------------------------------------
+# part e: reassembly state belongs to one association
+
+def decoder_interleaving_case(value):
+    """K associations receive one message each, command sets and data sets fragmented (small maximum length); their
+    P-DATA-TF PDUs reach the K reassemblers in a drawn interleaving.  Every association ends up with its own message,
+    exactly as when it is fed alone."""
+    from pynetdicom2 import fsm, pdu, dsutils, asceprovider
+    from pydicom import uid
+    from .. import dimsegen as dg, refcmd, refpdu
+    specs, M, order = value
+    case = {'part': 'decoders', 'specs': specs, 'M': M, 'order': order}
+    streams = []
+    for j, spec in enumerate(specs):
+        cmd = refcmd.encode(dg.expected_fields(spec))
+        frags = dg.ref_fragments(cmd, spec['data'], M, 1 + 2 * j)
+        streams.append([refpdu.enc_pdu({'t': 4, 'r': 0, 'pdvs': [f]}) for f in frags])
+
+    def new_decoder(j):
+        sop = specs[j]['fields'].get('AffectedSOPClassUID') or specs[j]['fields'].get('RequestedSOPClassUID') or '1.2.3'
+        ctxs = {1 + 2 * j: asceprovider.PContextDef(1 + 2 * j, uid.UID(sop), uid.UID('1.2.840.10008.1.2'))}
+        return fsm.DIMSEDecoder(ctxs, frozenset(), None)
+
+    def result(dec):
+        if dec.receiving:
+            return ('incomplete',)
+        ds = dec.msg.data_set
+        return (type(dec.msg).__name__, dec.pc_id, dsutils.encode(dec.msg.command_set, True, True), ds)
+    alone = []
+    for j, st_ in enumerate(streams):
+        d = new_decoder(j)
+        try:
+            for raw in st_:
+                d.process(pdu.PDataTfPDU.decode(raw))
+            alone.append(result(d))
+        except Exception as exc:
+            raise HarnessError('message %d does not reassemble on its own: %r' % (j, exc))
+    decs = [new_decoder(j) for j in range(len(specs))]
+    pos = [0] * len(specs)
+    k = 0
+    while any(pos[j] < len(streams[j]) for j in range(len(specs))):
+        live = [j for j in range(len(specs)) if pos[j] < len(streams[j])]
+        j = live[order[k % len(order)] % len(live)]
+        k += 1
+        try:
+            decs[j].process(pdu.PDataTfPDU.decode(streams[j][pos[j]]))
+        except Exception as exc:
+            raise Violation('%s:decoders:exception:%s' % (PROP, lib_frame(exc)), 'association %d of %d: reassembly raised %r when its '
+                            'PDUs alternate with those of other associations (it reassembles fine alone)' % (j, len(specs), exc), case)
+        pos[j] += 1
+    for j in range(len(specs)):
+        try:
+            got = result(decs[j])
+        except Exception as exc:
+            raise Violation('%s:decoders:exception:%s' % (PROP, lib_frame(exc)), 'association %d: %r' % (j, exc), case)
+        if got != alone[j]:
+            raise Violation('%s:decoders:mixed-up' % PROP, 'association %d of %d reassembled %s, alone it reassembles %s'
+                            % (j, len(specs), got[:2], alone[j][:2]), case)
+    return sum(len(s_) for s_ in streams)
+
+
+def run_decoders(ctx, n):
+    from .. import dimsegen as dg
+    strat = st.tuples(st.lists(dg.message(max_data=120), min_size=2, max_size=4), st.sampled_from([7, 12, 16, 24, 38, 64, 4096]),
+                      st.lists(st.integers(0, 3), min_size=1, max_size=30))
+
+    def fn(value):
+        npdus = decoder_interleaving_case(value)
+        ctx.case(('decoders', value), npdus >= 2 * len(value[0]) + 2, labels=['decoder-interleaving', 'k=%d' % len(value[0])],
+                 sample={'associations': len(value[0]), 'M': value[1], 'pdus': npdus})
+    hyp_search(ctx, strat, fn, n, name='C20-decoders')
+
+
 def shard_baton(ctx, job):
     warnings.simplefilter('ignore')
     strat = st.tuples(st.integers(2, 4), st.integers(0, 5), st.lists(st.integers(0, 4), min_size=1, max_size=40),
@@ -726,7 +799,7 @@ def run(ctx):
                 'generator) against one server entity over loopback TCP, R rounds with permuted start order; part b: '
                 '2-4 AssociationAcceptor.handle() bodies plus 0-2 associations the same entity requests itself, sharing one AE on scripted providers, interleaved at every '
                 'provider send/receive and inside every application handler by a baton scheduler whose order is Hypothesis-drawn, each compared with the '
-                'same association run alone; _new_msg_id() from concurrent threads; part c: PDU encode/decode, message fragmentation (bytes and file-like), group-length computation and status classification run in 8 threads under a 1 microsecond switch interval and must equal the single-threaded results; part d: one requesting entity with 2-4 associations open at the same time on scripted peers answering with Hypothesis-drawn result codes 0-4: each association proposes all configured classes and uses exactly what its own peer accepted; non-trivial = >=2 associations '
+                'same association run alone; _new_msg_id() from concurrent threads; part c: PDU encode/decode, message fragmentation (bytes and file-like), group-length computation and status classification run in 8 threads under a 1 microsecond switch interval and must equal the single-threaded results; part d: one requesting entity with 2-4 associations open at the same time on scripted peers answering with Hypothesis-drawn result codes 0-4: each association proposes all configured classes and uses exactly what its own peer accepted; part e: 2-4 reassemblers (one per association) fed the fragmented messages of their associations in a drawn interleaving, each compared with being fed alone; non-trivial = >=2 associations '
                 'overlapping (>=2 baton switches / >=2 clients)')
     ctx.assumptions = ['part a samples OS schedules; part b enumerates interleavings at primitive granularity only',
                        'server-side calls are attributed to associations through the handler thread (one thread per association)',
@@ -743,6 +816,7 @@ def run(ctx):
     except Violation as v:
         ctx.fail(v.key, v.what, v.case)
     run_negotiation(ctx, 3000 if ctx.thorough else 200)
+    run_decoders(ctx, 4000 if ctx.thorough else 300)
     s = ctx.seed
     if ctx.thorough:
         rounds = [(n, s * 100 + r) for n in (4, 8, 16, 32) for r in range(5)]
@@ -763,6 +837,8 @@ def replay(case):
             print('inconclusive: %s' % inc)
     elif case['part'] == 'thread-stress':
         thread_stress(8, 200)
+    elif case['part'] == 'decoders':
+        decoder_interleaving_case((case['specs'], case['M'], case['order']))
     elif case['part'] == 'negotiation':
         negotiation_case((case['ncls'], [[tuple(x) for x in p] for p in case['patterns']], case['fifo']))
     elif case['part'] == 'baton':
